@@ -125,6 +125,15 @@ def run(ctx):
             complaints = ["exception %r" % e]
         if complaints:
             bad.append({"case": case, "complaints": complaints[:4]})
+    try:
+        seq_mism = match_sequences(ctx, ctx.n(150, 3000))
+    except common.DriverError as e:
+        broken.append(("driver", {"error": str(e)[-1000:]}))
+        seq_mism = []
+    for m_ in seq_mism[:3]:
+        # the model answers position by position; a position whose answer changes with its neighbours in the call is a failing input
+        bad.append({"case": m_["case"], "complaints": [m_["why"]]})
+    mism += seq_mism
     if mism:
         broken.append(("correspondence", {"count": len(mism), "mismatches": mism[:5]}))
     for b in bad[:5]:
@@ -137,6 +146,76 @@ def run(ctx):
     return common.finish(ctx, "proof", "extend / query / match on 1-12 atoms in dyadic cells of six shapes (extend also on cells with 1-3 zero vectors), all pbc combinations, "
                          "extension and cutoff 0.2-4 A: Lean model vs the real code and a brute-force image enumeration on the real output",
                          TRUSTED, "cd /verif/lean && lake build MatidProps.C16 (+ #print axioms)")
+
+
+def match_sequences(ctx, nseq):
+    """ONE call of get_matches / get_matches_simple with several query positions of mixed outcome (match, substitution, vacancy in every
+    order) against the model asked position by position: the answer for a position must not depend on its neighbours in the call"""
+    import matid.geometry as G
+    from ase import Atoms
+    rng = np.random.default_rng(ctx.seed + 1616)
+    lines, seqs = [], []
+    for s_ in range(nseq):
+        cell, kind = GC.rand_cell(rng)
+        pbc = [bool((s_ >> i) & 1) for i in range(0, 3)]
+        n = int(rng.integers(2, 10))
+        pos, _ = GC.rand_positions_inside(rng, cell, n)
+        nums = rng.choice([6, 8, 14], n)
+        ext = float(GC.dy(rng.uniform(0.5, 2.5)))
+        cut = float(GC.dy(rng.uniform(0.5, 2.5)))
+        tol = float(GC.dy(rng.uniform(0.1, min(ext, cut))))
+        base = "%s %s" % (GC.fmt_vecs(cell), GC.fmt_pbc(pbc))
+        nq = int(rng.integers(2, 6))
+        plan = [("match", "substitution", "vacancy")[int(rng.integers(0, 3))] for _ in range(nq)]
+        if s_ % 3 == 0:
+            plan = (["substitution", "vacancy"] * 3)[:max(2, nq)]
+        qs, zs = [], []
+        for want in plan:
+            j = int(rng.integers(0, n))
+            if want == "vacancy":
+                q = (rng.integers(0, 64, 3) / 64.0) @ cell
+                z = int(nums[j])
+            else:
+                q = pos[j] + GC.dy(rng.uniform(-0.03, 0.03, 3))
+                fr = np.linalg.solve(cell.T, q)
+                if not ((fr >= 0) & (fr < 1)).all():
+                    q = pos[j]
+                z = int(nums[j]) if want == "match" else 79
+            qs.append(q)
+            zs.append(z)
+        first = len(lines)
+        for q, z in zip(qs, zs):
+            lines.append("match %s %s %s %s %s %s %s %d" % (base, GC.fs(ext), GC.fs(cut), GC.fs(tol), GC.fmt_vecs(pos), ",".join(map(str, nums)), GC.fmt_vecs(q), z))
+        seqs.append((cell, pbc, pos, nums, ext, cut, tol, qs, zs, first))
+    out = driver(lines)
+    mism = []
+    for cell, pbc, pos, nums, ext, cut, tol, qs, zs, first in seqs:
+        atoms = Atoms(numbers=nums, positions=pos, cell=cell, pbc=pbc)
+        cl = G.get_cell_list(np.array(pos), cell, np.array(pbc), ext, cut)
+        matches, subs, vac, copies = G.get_matches(atoms, cl, np.array(qs), zs, tol)
+        kinds = []
+        for i, (q, z) in enumerate(zip(qs, zs)):
+            o = out[first + i]
+            mk, ans = o.split(":")
+            answers = {(int(a.split("/")[0]), tuple(int(v) for v in a.split("/")[1].split(","))) for a in ans.split("|") if a}
+            kind = "match" if matches[i] is not None else "substitution" if subs[i] is not None else "vacancy"
+            kinds.append(kind)
+            idx = matches[i] if matches[i] is not None else (subs[i].index if subs[i] is not None else 0)
+            ctx.case(("matchseq", lines[first + i]), nontrivial=True)
+            ctx.count("matchseq_" + mk)
+            fr = np.linalg.solve(np.array(cell).T, np.array(q))
+            on_face = np.abs(fr - np.rint(fr)).min() < 1e-9
+            bad_copy = np.isnan(np.asarray(copies[i], dtype=float)).any()
+            fac = None if bad_copy else tuple(int(v) for v in copies[i])
+            if mk != kind or bad_copy or ((idx, fac) not in answers and not (mk == "vacancy" and on_face)):
+                mism.append({"why": "position %d of %d in ONE get_matches call: model %s, code %s %s %s (outcomes of the call so far: %s)" % (i, len(qs), o, kind, idx, fac, kinds),
+                             "case": {"op": "match-sequence", "cell": np.asarray(cell).tolist(), "pbc": [bool(b) for b in pbc], "positions": np.asarray(pos).tolist(),
+                                      "numbers": [int(v) for v in nums], "extension": ext, "cutoff": cut, "tolerance": tol,
+                                      "queries": np.asarray(qs).tolist(), "z": [int(v) for v in zs]}})
+                break
+        if len(vac) != sum(1 for k_ in kinds if k_ == "vacancy") and not mism:
+            mism.append({"why": "%d vacancies returned for %d vacant positions" % (len(vac), sum(1 for k_ in kinds if k_ == "vacancy")), "case": {"op": "match-sequence"}})
+    return mism
 
 
 def oracle_extend(cell, pbc, pos, nums, ext, es):
